@@ -42,6 +42,12 @@
 //       omega = t^H s / t^H t; Arnoldi-MGS + unitary Givens rotations [conj c, conj s; -s, c], c = a/d, s = b/d,
 //       d = sqrt(|a|^2+|b|^2)); bicgstabl with convex = true: x after every sweep equals L BiCG steps followed by the
 //       degree-L minimal-residual polynomial step (Sleijpen & Fokkema) with the Hermitian Gram matrix R^H R
+//   (e) idrs: every (s+1)-th iteration is the dimension-reduction step x += om P r, r -= om t, t = A P r with the
+//       minimal-residual om = (t^H r) / (t^H t) ("omega = 0: a standard minimum residual step", scaled by omega / rho when
+//       the cosine rho = |t^H r| / (|t| |r|) is below the parameter omega): x_k - x_{k-1} is recomputed from x_{k-1}
+//   (f) idrs with smoothing: the returned iterate equals the minimal-residual smoothing x_s -= gamma (x_s - x_k),
+//       gamma = (t^H r_s) / (t^H t), t = r_s - r_k, of the unsmoothed iterates x_k (obtained from the same configuration
+//       with smoothing off); the true residual of the returned iterate is non-increasing in k
 //   (d) cplx_term: with the identity preconditioner the solver stops within n iterations (gmres-family with M = n,
 //       bicgstabl: the next multiple of L, idrs: ceil(n/s) (s+1) = n + n/s when s divides n), with the exact inverse
 //       as preconditioner within 1 iteration (bicgstabl: 1, richardson with damping 1: 1), and the TRUE relative
@@ -53,8 +59,8 @@
 // When an iterate check of (b)/(c) fails, the harness additionally runs the same reference WITH THE DEVIATION OF THE
 // LIBRARY TEXT that is suspected as the cause (Givens: cs/sn from 1 + tmp*tmp instead of 1 + |tmp|^2; BiCGStab:
 // alpha = rho / conj(rh^H v), omega = conj(t^H s) / t^H t, i.e. the argument order of inner_product; BiCGStab(L): the
-// Gram matrix symmetrised as Z(i,j) = Z(j,i) = adjoint(Z(j,i))).  If the implementation agrees with that variant to
-// the same tolerance, the failure message starts with "complex-givens:" / "complex-bicgstab:" / "complex-bicgstabl:"
+// Gram matrix symmetrised as Z(i,j) = Z(j,i) = adjoint(Z(j,i)); IDR(s): om and gamma with conj(t^H r) in the numerator).  If the implementation agrees with that variant to
+// the same tolerance, the failure message starts with "complex-givens:" / "complex-bicgstab:" / "complex-bicgstabl:" / "complex-idrs:"
 // and names the cause; every other failure is an ordinary FAIL.  Nothing is excused inside the harness.
 #include "proto.hpp"
 #include <complex>
@@ -403,6 +409,8 @@ static Result exec_iter(Cur &c) {
     const bool gm = g.solver == S_GMRES || g.solver == S_FGMRES || g.solver == S_LGMRES;
     Line out; out << "ok";
     LD prev_res = nr0; long compared = 0; bool stop_ref = false;
+    // IDR(s): the unsmoothed iterate of the previous k and the two smoothing recurrences (textbook / coefficient as coded)
+    EV xu_prev = s.x0l, xs_t = s.x0l, rs_t = s.fl - s.Ad * s.x0l, xs_a = xs_t, rs_a = rs_t;
     for (long k = 1; k <= K && !stop_ref; ++k) {
         Run rn = run_cfg(g, s, k, RUN_TOL);
         const std::string head = head_of(g) + " k=" + str(k);
@@ -451,6 +459,40 @@ static Result exec_iter(Cur &c) {
                 if (measured(s, g, xr).norm() < CONV_STOP * nr0) stop_ref = true;
             }
         }
+        // (e), (f) IDR(s): dimension-reduction step and residual smoothing
+        if (g.solver == S_IDRS && !converged) {
+            EV xu = x;                                      // the unsmoothed iterate k (smoothing does not influence the iteration)
+            if (g.p2 != 0) { Cfg gu = g; gu.p2 = 0; Run ru = run_cfg(gu, s, k, RUN_TOL); if (ru.thrown || ru.it != k) { stop_ref = true; continue; } xu = ev(ru.x); }
+            const long sp = g.p1;
+            if (k % (sp + 1) == 0) {                        // iteration k is the step r -= om t, x += om v with v = P r, t = A v
+                EV rr = s.fl - s.Ad * xu_prev, v = s.Pd * rr, t = s.Ad * v; CL ts = hdot(t, rr); LD nt = t.norm(), ns = rr.norm();
+                LD rho = std::abs(ts) / (nt * ns), lim = (LD)g.p4;
+                if (nt > 0 && ns > 0 && std::fabs(rho - lim) > 1e-6L) {
+                    LD fac = rho < lim ? lim / rho : 1;
+                    EV xt = xu_prev + (ts / (nt * nt) * fac) * v, xa = xu_prev + (std::conj(ts) / (nt * nt) * fac) * v;
+                    LD d = dist(xu, xt, scale); ++compared;
+                    if (!(d <= TOL_X)) {
+                        if (dist(xu, xa, scale) <= TOL_X) r.fail("complex-idrs: " + head + ": the dimension-reduction step x_k - x_{k-1} = om P r is not the minimal-residual step om = (t^H r) / (t^H t)" + (lim > 0 ? " (scaled by omega/rho when rho < omega)" : "") +
+                            ", t = A P r (distance " + num(d) + "), but equals (distance " + num(dist(xu, xa, scale)) + ") the step with om = conj(t^H r) / (t^H t), the argument order of inner_product(t, s) in idrs.hpp omega()");
+                        else r.fail(head + ": the dimension-reduction step x_k - x_{k-1} differs from om P r with the minimal-residual om = (t^H r) / (t^H t): relative distance " + num(d) + " > " + num(TOL_X));
+                    }
+                }
+            }
+            if (g.p2 != 0) {                                // minimal-residual smoothing of the sequence of unsmoothed iterates
+                EV rk = s.fl - s.Ad * xu;
+                { EV t = rs_t - rk; LD tt = t.squaredNorm(); if (tt > 0) { CL gam = hdot(t, rs_t) / tt; rs_t -= gam * t; xs_t = xs_t - gam * (xs_t - xu); } }
+                { EV t = rs_a - rk; LD tt = t.squaredNorm(); if (tt > 0) { CL gam = std::conj(hdot(t, rs_a)) / tt; rs_a -= gam * t; xs_a = xs_a - gam * (xs_a - xu); } }
+                LD d = dist(x, xs_t, scale); ++compared;
+                if (!(d <= TOL_X)) {
+                    if (dist(x, xs_a, scale) <= TOL_X) r.fail("complex-idrs: " + head + " smoothing: the returned iterate is not the minimal-residual smoothing x_s -= gamma (x_s - x_k), gamma = (t^H r_s) / (t^H t), t = r_s - r_k, of the unsmoothed iterates (distance " + num(d) +
+                        "), but equals (distance " + num(dist(x, xs_a, scale)) + ") the smoothing with gamma = conj(t^H r_s) / (t^H t), the argument order of inner_product(t, r_s) in idrs.hpp");
+                    else r.fail(head + " smoothing: the returned iterate differs from the minimal-residual smoothing of the unsmoothed iterates: relative distance " + num(d) + " > " + num(TOL_X));
+                }
+                if (tr > prev_res * (1 + 1e-9L) + 1e-13L * nf && d <= TOL_X) r.fail(head + " smoothing: true residual norm increased from " + num(prev_res) + " to " + num(tr));
+                prev_res = tr;
+            }
+            xu_prev = xu;
+        }
         // residual non-increasing in k (GMRES family: defining property)
         if (gm) {
             if (tr > prev_res * (1 + 1e-9L) + 1e-13L * nf) r.fail(head + ": true residual norm increased from " + num(prev_res) + " to " + num(tr));
@@ -458,7 +500,7 @@ static Result exec_iter(Cur &c) {
         }
     }
     r.out = out.get();
-    r.nontrivial = !data_is_real(s) && K >= 2 && compared >= (g.solver == S_IDRS || (g.solver == S_BICGSTABL && g.p2 == 0 && g.p1 > 1) ? 0 : 2);
+    r.nontrivial = !data_is_real(s) && K >= 2 && compared >= (g.solver == S_IDRS ? 1 : (g.solver == S_BICGSTABL && g.p2 == 0 && g.p1 > 1) ? 0 : 2);
     if (gm) { r.tag("ls_min_cplx_test"); if (K > g.p1 + (g.solver == S_LGMRES ? g.p2 : 0)) r.tag("restarted"); }
     if (compared) r.tag("reference_iterates_cplx_test");
     return r;
@@ -607,13 +649,14 @@ static void gen_case(Rng &rng, const Opts &o, std::vector<std::string> &lines, i
     if (solver == S_GMRES || solver == S_FGMRES) p1 = rng.pick(std::vector<long>{1, 2, 4, n});
     if (solver == S_LGMRES) { p1 = rng.pick(std::vector<long>{1, 2, 4, n}); p2 = rng.range(0, 2); }
     if (solver == S_BICGSTABL) { p1 = rng.pick(std::vector<long>{1, 2, 2, 4, 4, 3}); p2 = rng.coin(3, 4); p3 = rng.coin(1, 4) ? 0.01 : 0.0; }
-    if (solver == S_IDRS) { p1 = std::min<long>(n, rng.pick(std::vector<long>{1, 2, 3, 4, 8})); p2 = rng.coin(1, 3); p3 = rng.coin(1, 4); p4 = rng.pick(std::vector<double>{0.0, 0.7, 0.7, 0.9}); }
+    if (solver == S_IDRS) { p1 = std::min<long>(n, rng.pick(std::vector<long>{1, 2, 3, 4, 8})); p2 = rng.coin(1, 3); p3 = rng.coin(1, 4); p4 = rng.pick(std::vector<double>{0.0, 0.0, 0.7, 0.7, 0.9}); }
     if (solver == S_RICHARDSON) p4 = rng.pick(std::vector<double>{1.0, 0.5, 0.75, 1.25});
     if (!term) {
         int pkind = (int)rng.pick(std::vector<int>{0, 0, 1, 1, 2, 3, 4, 4, 5, 5});
         GenSys g = gen_sys(rng, n, hpd, pkind, 200, true);
         long K = std::min<long>(n, rng.range(2, 8)); if (solver == S_BICGSTABL) K = std::min<long>(std::max<long>(K, 2 * p1), 12);
         if (solver == S_RICHARDSON) K = rng.range(1, 6);
+        if (solver == S_IDRS) K = std::min<long>(std::max<long>(K, (p1 + 1) * rng.range(1, 2)), 12);
         lines.push_back(op_line("cplx_iter", solver, left, p1, p2, p3, p4, K, g));
     } else {
         bool exact = rng.coin(1, 3); if (solver == S_RICHARDSON) { exact = true; p4 = 1.0; }
